@@ -14,6 +14,7 @@ from hypothesis import HealthCheck, Phase, given, settings
 from hypothesis import strategies as st  # noqa: F401  (re-export)
 
 MAX_SAMPLES = 8
+CG = None  # set by harness.cg in a coverage-guided interpreter: {"runs": N, "wdir": ...}
 
 
 def digest(obj) -> str:
@@ -84,6 +85,24 @@ class Collector:
             if size < cur["size"]:
                 cur.update(case=case, detail=detail, size=size)
 
+    def replace(self, d: dict):
+        """take over the state written by `dump()` (coverage-guided child -> parent)"""
+        self.evaluations = d["evaluations"]
+        self.nontrivial = set(d["nontrivial"])
+        self.samples = list(d["samples"])
+        self.labels = collections.Counter(d["labels"])
+        self.violations = d["violations"]
+        self.known_hits = collections.Counter(d["known_hits"])
+        self.known_examples = d["known_examples"]
+        self.truncated = d["truncated"]
+        self.exhaustive_done = d["exhaustive_done"]
+
+    def absorb(self, d: dict):
+        """add the state written by another collector's `dump()` to this one"""
+        m = merge([self.dump(), d])
+        m["nontrivial"] = list(m["nontrivial"])
+        self.replace(m)
+
     def dump(self) -> dict:
         return {
             "evaluations": self.evaluations,
@@ -130,12 +149,20 @@ def merge(dumps: list[dict]) -> dict:
 
 # -- Hypothesis driver -----------------------------------------------------------
 
+class _BudgetUsedUp(BaseException):
+    """the check's wall-clock budget is used up: stop generating (explored less; never a failure)"""
+
+
 def drive(strategy, fn, *, n: int, seed: int, col: Collector | None = None):
     """Run `fn(example)` over `n` generated examples, deterministically from `seed`.
 
     `fn` must not raise for property violations (it reports to the collector); an exception
     escaping from it is a harness fault and propagates.
     """
+
+    if CG is not None:
+        from harness import cg
+        return cg.drive_cg(strategy, fn, n=n, seed=seed, col=col, cfg=CG)
 
     @hypothesis.seed(seed)
     @settings(max_examples=n, database=None, deadline=None, derandomize=False,
@@ -144,10 +171,13 @@ def drive(strategy, fn, *, n: int, seed: int, col: Collector | None = None):
     @given(strategy)
     def _t(x):
         if col is not None and col.out_of_time():
-            return
+            raise _BudgetUsedUp()  # a BaseException: Hypothesis lets it through at once (no replay, no further examples)
         fn(x)
 
-    _t()
+    try:
+        _t()
+    except _BudgetUsedUp:
+        pass
 
 
 # -- watchdog ----------------------------------------------------------------------
